@@ -53,7 +53,7 @@ def gen(rng, tier, idx):
     return dict(P=max(g[0] * g[1] for g in grids), ckw=ckw, grids=grids,
                 edge=rng.choice(['fEq', 'null', 'periodic']),
                 amp=10.0 ** rng.uniform(-3, 3), dtsign=rng.choice([1, 1, -1]),
-                fseed=rng.randrange(1 << 30), zero_phi=rng.random() < 0.05, sched=sched)
+                fseed=rng.randrange(1 << 30), zero_phi=rng.random() < 0.05, again=rng.random() < 0.35, sched=sched)
 
 
 def fields(case):
@@ -71,6 +71,7 @@ def run(case, tape=None):
     ckw = case['ckw']
     npts = ckw['npts']
     F, PHI = fields(case)
+    PHI2 = -0.5 * fields(dict(case, fseed=case['fseed'] + 77, zero_phi=False))[1]
     for g in case['grids']:
         P = g[0] * g[1]
 
@@ -91,7 +92,16 @@ def run(case, tape=None):
                     np.array(pipe.parGradVals, copy=True))
             pipe.vParAdv.gridStepKeepGradient(f, pipe.parGradVals, dt)
             two = phys.block(f)
-            return dict(one=one, two=two, grad=grad, dt=float(dt),
+            three = None
+            if case.get('again'):
+                # the same objects used for the next step with a new potential: nothing of the previous
+                # gradient table or potential may survive
+                phi.setLayout('mode_solve')
+                phi.getAllData()[:] = cm.local(PHI2, phi.getLayout('mode_solve'))
+                phi.setLayout('v_parallel_1d')
+                pipe.vParAdv.gridStep(f, phi, pipe.parGrad, pipe.parGradVals, dt)
+                three = phys.block(f)
+            return dict(one=one, two=two, three=three, grad=grad, dt=float(dt),
                         eta=[np.asarray(x) for x in f.eta_grid] if rank == 0 else None,
                         cdict=ref.constants_dict(constants) if rank == 0 else None)
 
@@ -132,6 +142,18 @@ def run(case, tape=None):
                 raise OracleFail('advection-differs', dict(step='gridStepKeepGradient', grid=g,
                                                            relerr=float(d2.max()) / scale2, at=[int(x) for x in i],
                                                            edge=case['edge']))
+            if case.get('again'):
+                three = phys.assemble([r['three'] for r in results], npts, 'f after the second gridStep')
+                gref2 = ref.parallel_gradient_ref(PHI2.transpose(0, 2, 1), eta, cdict)
+                want3, safe3 = ref.vpar_advect_ref(got2, gref2, dt, eta, cdict, case['edge'])
+                d3 = np.abs(three.transpose(0, 2, 1, 3) - want3)
+                d3[~safe3] = 0.0
+                scale3 = max(scale2, float(np.max(np.abs(got2))))
+                if not (float(d3.max()) <= TOL * scale3):
+                    i = np.unravel_index(int(np.argmax(d3)), d3.shape)
+                    raise OracleFail('advection-differs', dict(step='second gridStep (new potential)', grid=g,
+                                                               relerr=float(d3.max()) / scale3,
+                                                               at=[int(x) for x in i], edge=case['edge']))
             width = eta[3][-1] - eta[3][0]
             shift = float(np.max(np.abs(gref))) * abs(dt) / width
             probes = {'grid_%dx%d' % (g[0], g[1]): 1}
@@ -150,6 +172,8 @@ def run(case, tape=None):
               'dt_negative' if case['dtsign'] < 0 else 'dt_positive': 1}
     if ckw.get('iotaVal'):
         probes['iota_nonzero'] = 1
+    if case.get('again'):
+        probes['second_step_new_potential'] = 1
     if ckw.get('vMax', 7.32) < 7:
         probes['short_velocity_domain'] = 1
     if ckw.get('vMin') is not None and ckw['vMin'] != -ckw.get('vMax', 7.32):
